@@ -26,6 +26,9 @@ def setup(ctx, anchors=(), idx_sample_every=1):
 
 def finish(ctx):
     hub = ctx.hub
+    if ELSEWHERE["built"] or ELSEWHERE["failed"]:
+        ctx.counters["documents_built_in_another_process_and_unpickled"] += ELSEWHERE["built"]
+        ctx.counters["documents_built_in_another_process.failed"] += ELSEWHERE["failed"]
     for k, v in hub.counts.items():
         ctx.counters["mon." + k] += v
     if ctx.cov is not None:
@@ -50,11 +53,51 @@ def drain_monitors(ctx, idx, payload, own=(), background=True):
     return out
 
 
+ELSEWHERE = {"one_in": 0, "built": 0, "failed": 0}     # set by the checks that accept documents built in another process
+_CHILD = r"""
+import sys, json, pickle
+sys.path.insert(0, %(lib)r)
+import pv
+from pv import interp
+st = interp.run(json.load(sys.stdin))
+sys.stdout.buffer.write(pickle.dumps(st))
+"""
+
+
+def build_elsewhere(ops):
+    """The same program run by another interpreter process (its own string-hash seed) and handed over by pickle: documents travel
+    between processes (multiprocessing, caches, job queues), and whatever an object remembers about itself travels with it."""
+    import json
+    import pickle
+    import subprocess
+    import zlib
+    from pv import env
+    e = dict(os.environ)
+    e["PYTHONHASHSEED"] = str(1 + zlib.crc32(gen.case_hash(ops).encode()) % 4000)
+    e["PROV_SRC"] = env.PROV_SRC
+    try:
+        p = subprocess.run([env.PYTHON, "-c", _CHILD % {"lib": os.path.join(env.VERIF, "lib")}], input=json.dumps(ops).encode(), env=e,
+                           capture_output=True, timeout=120)
+        if p.returncode != 0:
+            ELSEWHERE["failed"] += 1
+            return None
+        st = pickle.loads(p.stdout)
+        ELSEWHERE["built"] += 1
+        return st
+    except Exception:
+        ELSEWHERE["failed"] += 1
+        return None
+
+
 def build(ops, observed=None):
     """Run a program.  observed=None: decided from the program itself (half of the programs are built while read-only
     observations -- accessors, printing, ==/hash, look-ups, listings -- are interleaved with the construction)."""
     import random
     h = gen.case_hash(ops)
+    if ELSEWHERE["one_in"] and int(h[2:8], 16) % ELSEWHERE["one_in"] == 0:
+        st = build_elsewhere(ops)
+        if st is not None:
+            return st
     if observed is None:
         observed = int(h[:2], 16) % 2 == 0
     if not observed:
